@@ -192,3 +192,30 @@ def _table_of(sql: str) -> str:
 
 
 ENGINE_OPTIONS = {"connect_args": {"factory": Connection, "timeout": 0, "check_same_thread": False}}
+
+
+# ------------------------------------------------------------------------------------------ file seams
+def install_file_seams() -> None:
+    """Park before the blob store is touched (upload saved, file removed): the operations between two SQL
+    statements are otherwise one step.  Idempotent; a no-op outside a burst."""
+    import pathlib
+    from werkzeug.datastructures import FileStorage
+    if getattr(FileStorage.save, "_dsim_seam", False):
+        return
+    orig_save = FileStorage.save
+    orig_unlink = pathlib.Path.unlink
+
+    def save(self, dst, *args, **kw):  # noqa: ANN001
+        point("file:save")
+        return orig_save(self, dst, *args, **kw)
+
+    def unlink(self, *args, **kw):  # noqa: ANN001
+        point("file:unlink")
+        return orig_unlink(self, *args, **kw)
+
+    save._dsim_seam = True
+    FileStorage.save = save
+    pathlib.Path.unlink = unlink
+
+
+install_file_seams()
